@@ -1,6 +1,7 @@
 import MsVerif.Driver.OpsTypes
 import MsVerif.Driver.OpsMs
 import MsVerif.Driver.OpsTap
+import MsVerif.Driver.OpsPolicy
 
 namespace MsVerif.Driver
 
@@ -24,7 +25,10 @@ def step (st : DState) (line : String) : DState × String :=
       | none =>
         match opsTap kind op args with
         | some r => (st, r)
-        | none => (st, "bad-op")
+        | none =>
+          match opsPolicy kind op args with
+          | some r => (st, r)
+          | none => (st, "bad-op")
   | _ => (st, "bad-op")
 
 end MsVerif.Driver
